@@ -1304,6 +1304,20 @@ val iterate : n list -> n list list -> n list -> n -> (n list * z) list option
 
 val split_outputs : n list -> n list -> (n list * z) list option
 
+val finished_lines :
+  n list -> z -> n list list -> n -> n option -> n * n option
+
+val finished : n list -> z -> n list -> n * n option
+
+type sverdict =
+| VSkip of n
+| VOuts of (n list * z) list
+| VErr
+
+val first_code : z -> (n list * z) list -> n -> n option
+
+val script_verdict : n list -> z -> n -> z -> n list -> sverdict
+
 val divider_line : n list -> n -> z -> n list
 
 val ideal : n list -> n -> (n list * z) list -> n list
